@@ -2361,3 +2361,198 @@ func runC12SharedFailingOptions(c *CaseCtx, r *rand.Rand) (res CaseResult) {
 	res.Sample = det
 	return res
 }
+
+// ---------------------------------------------------------------------------
+// C09: planning through a converter whose memoized result is "all zero"
+// ---------------------------------------------------------------------------
+
+type c09ZOut struct {
+	am.Struct
+	A int
+}
+
+// c09ZWorld is one of two identical worlds: a converter string->int in one of
+// the struct result forms, whose result is a nil pointer, a pointer to a zero
+// struct or a pointer to / value of a non-zero struct, run-once or not; and a
+// target int->int.
+type c09ZWorld struct {
+	conv, target *am.Func
+	runs, ranT   int
+}
+
+func newC09ZWorld(form, kind int, once bool) (*c09ZWorld, error) {
+	w := &c09ZWorld{}
+	type in struct {
+		am.Struct
+		B string
+	}
+	mk := func() *c09ZOut {
+		switch kind {
+		case 0:
+			return nil
+		case 1:
+			return &c09ZOut{}
+		}
+		return &c09ZOut{A: 41}
+	}
+	var fn interface{}
+	if form == 0 {
+		fn = func(i in) *c09ZOut { w.runs++; return mk() }
+	} else {
+		fn = func(i in) c09ZOut {
+			w.runs++
+			if p := mk(); p != nil {
+				return *p
+			}
+			return c09ZOut{}
+		}
+	}
+	var opts []am.Arg
+	if once {
+		opts = append(opts, am.FuncOnce())
+	}
+	var err error
+	if w.conv, err = am.NewFunc(fn, opts...); err != nil {
+		return nil, err
+	}
+	w.target, err = am.NewFunc(func(i struct {
+		am.Struct
+		A int
+	}) int {
+		w.ranT++
+		return i.A + 1
+	})
+	return w, err
+}
+
+// snapshot of one direct use of the converter / the target through it
+func (w *c09ZWorld) useConv() string {
+	r := w.conv.Call(am.Named("b", "x"))
+	s := fmt.Sprintf("err=%v len=%d", r.Err() != nil, r.Len())
+	if r.Err() == nil && r.Len() > 0 {
+		switch p := r.Out(0).(type) {
+		case *c09ZOut:
+			if p == nil {
+				s += " out=nil-pointer"
+			} else {
+				s += fmt.Sprintf(" out=&{A:%d}", p.A)
+			}
+		case c09ZOut:
+			s += fmt.Sprintf(" out={A:%d}", p.A)
+		default:
+			s += fmt.Sprintf(" out=%T", p)
+		}
+	}
+	return s + fmt.Sprintf(" runs=%d", w.runs)
+}
+
+func (w *c09ZWorld) useTarget(f *am.Func) string {
+	r := f.Call(am.Named("b", "x"), am.ConverterFunc(w.conv))
+	s := fmt.Sprintf("err=%v len=%d", r.Err() != nil, r.Len())
+	if r.Err() == nil && r.Len() > 0 {
+		s += fmt.Sprintf(" out=%v", r.Out(0))
+	}
+	return s + fmt.Sprintf(" runs=%d ranT=%d", w.runs, w.ranT)
+}
+
+// runC09ZeroResults: twin worlds run the same history of real uses; world 1
+// additionally plans (Redefine) between them, with a filter that forces the
+// plan through the converter. Every real use must look the same in both
+// worlds - in particular a memoized nil-pointer result stays a nil pointer -
+// and planning runs nothing.
+func runC09ZeroResults(c *CaseCtx, r *rand.Rand) (res CaseResult) {
+	res.NonTrivial = true
+	q := c.Idx / 40
+	form, kind, once := q%2, (q/2)%3, (q/6)%3 < 2
+	res.Key = fmt.Sprintf("zero-results form=%d kind=%d once=%v", form, kind, once)
+	res.obs("family.zero-results-through-planning", 1)
+	w1, e1 := newC09ZWorld(form, kind, once)
+	w2, e2 := newC09ZWorld(form, kind, once)
+	if e1 != nil || e2 != nil {
+		res.Skip = "newfunc"
+		return res
+	}
+	var hist []string
+	det := func() interface{} { return map[string]interface{}{"case": res.Key, "history": strings.Join(hist, " ; ")} }
+	// what the body returns, as useConv renders it
+	wantOut := [][]string{{"nil-pointer", "&{A:0}", "&{A:41}"}, {"{A:0}", "{A:0}", "{A:41}"}}[form][kind]
+	var redefined *am.Func
+	n := 5 + r.Intn(8)
+	for k := 0; k < n; k++ {
+		op := r.Intn(4)
+		if (q/18)%2 == 0 && k < 3 {
+			// forced prefix: real use, planning, real use
+			op = []int{0, 2, 0}[k]
+		}
+		switch {
+		case op == 0:
+			a, b := w1.useConv(), w2.useConv()
+			hist = append(hist, "conv:"+a)
+			res.Evals += 2
+			if want := " out=" + wantOut + " "; a == b && !strings.Contains(a, want) {
+				// both worlds agree, and both hand out something the body never returned
+				res.violate("C11", "once-result-changed", "a direct call of the converter returned"+want+"on its execution, a later use sees "+a, det())
+				return res
+			}
+			if a != b {
+				res.violate("C09", "not-as-before", "a direct use of the converter differs from the world that never planned: "+a+" vs "+b, det())
+				return res
+			}
+		case op == 1:
+			a, b := w1.useTarget(w1.target), w2.useTarget(w2.target)
+			hist = append(hist, "target:"+a)
+			res.Evals += 2
+			if a != b {
+				res.violate("C09", "not-as-before", "a call of the target through the converter differs from the world that never planned: "+a+" vs "+b, det())
+				return res
+			}
+		case op == 2 || redefined == nil:
+			runs, ranT := w1.runs, w1.ranT
+			var rf *am.Func
+			var err error
+			func() {
+				defer func() {
+					if p := recover(); p != nil {
+						res.violate("C06", "panic/redefine-"+crashKey(fmt.Sprint(p)), fmt.Sprintf("Redefine panicked: %v", p), det())
+					}
+				}()
+				rf, err = w1.target.Redefine(am.ConverterFunc(w1.conv), am.FilterInput(am.FilterType(reflect.TypeOf(""))))
+			}()
+			hist = append(hist, fmt.Sprintf("redefine:err=%v", err != nil))
+			res.Evals++
+			res.obs("redefines", 1)
+			if w1.runs != runs || w1.ranT != ranT {
+				res.violate("C09", "executed-during-redefine", fmt.Sprintf("Redefine ran user code: converter %d->%d, target %d->%d", runs, w1.runs, ranT, w1.ranT), det())
+				return res
+			}
+			if err != nil || rf == nil {
+				res.violate("C08", "redefine-refused", fmt.Sprintf("Redefine refused a plan through the converter: %v", err), det())
+				return res
+			}
+			redefined = rf
+		default:
+			// the redefined function, against the original target of world 2
+			r1 := redefined.Call(am.Named("b", "x"))
+			a := fmt.Sprintf("err=%v", r1.Err() != nil)
+			if r1.Err() == nil && r1.Len() > 0 {
+				a += fmt.Sprintf(" out=%v", r1.Out(0))
+			}
+			a += fmt.Sprintf(" runs=%d ranT=%d", w1.runs, w1.ranT)
+			r2 := w2.target.Call(am.Named("b", "x"), am.ConverterFunc(w2.conv))
+			b := fmt.Sprintf("err=%v", r2.Err() != nil)
+			if r2.Err() == nil && r2.Len() > 0 {
+				b += fmt.Sprintf(" out=%v", r2.Out(0))
+			}
+			b += fmt.Sprintf(" runs=%d ranT=%d", w2.runs, w2.ranT)
+			hist = append(hist, "redefined:"+a)
+			res.Evals += 2
+			res.obs("redefined_calls", 1)
+			if a != b {
+				res.violate("C08", "redefined-result", "the redefined function differs from the original called with the same value: "+a+" vs "+b, det())
+				return res
+			}
+		}
+	}
+	res.Sample = det()
+	return res
+}
